@@ -1720,8 +1720,10 @@ class Food(UnitConversions):
         """
 
         # Define a rounding function
+        # (float(): a numpy float rounds ties differently from a python float, so a single value and the
+        # same value as an element of a monthly list could get different answers)
         def round_to_precision(value):
-            return round(value, rounding_decimals)
+            return round(float(value), rounding_decimals)
 
         # Check if the food is monthly
         if self.is_list_monthly():
